@@ -5,7 +5,9 @@ legs: t1t, t2t, t3t, t3e (library's Type3TagEmulation is the tag), t4t; plus
 (bounded exhaustive); plus `history`: several operations on ONE tag object
 (read, has_changed, assignments, repeated assignments, format), any of them
 with a communication fault at a command position, judged against a model of
-the tag content - see run_history.
+the tag content - see run_history; plus `t4t-fault` / `t4t-fault-enum`: the
+Type 4 round trip with ONE lost or corrupted ISO-DEP block (either direction)
+at a block position of the assignment or of the fresh read - see run_t4fault.
 
 Oracle per case (layout, old message, new length):
  1. the tag activates and tag.ndef exists (layouts are well formed)
@@ -43,6 +45,15 @@ ASSUMPTIONS = [
     "management data may be half rewritten, not a well-formed layout); the "
     "fresh activation reads a copy of the tag's persistent memory so that "
     "the session of the tag object under test is not disturbed",
+    "t4t-fault legs: one fault per case, injected after activation: the "
+    "reader's block is lost (a corrupted reader block is ignored by the card, "
+    "same thing), the card's block is lost, or the card's block is corrupted "
+    "(reader sees a transmission error); FWI <= 11 so that the library's own "
+    "retry policy (min(int(1/FWT), 5) >= 1) admits one retransmission; an "
+    "assignment that raises nfc.tag.TagCommandError and a fresh tag.ndef that "
+    "is None under the fault are accepted here (whether a recoverable fault "
+    "must be absorbed is C12 / C16), everything that RETURNS is judged by the "
+    "round trip oracle",
 ]
 
 
@@ -363,6 +374,251 @@ def run_history(case, ctx):
     ctx.note({"verified": m.verified, "after_trouble": m.after_trouble})
 
 
+# Type 4 round trip under one survivable ISO-DEP fault -------------------------
+T4FAULTS = {"LC": ("timeout", "cmd"), "LR": ("timeout", "rsp"),
+            "CR": ("transmission", "rsp")}
+FSC = (16, 24, 32, 40, 48, 64, 96, 128, 256)
+
+
+def _t4_write_cost(desc, L, budget):
+    """exchanges a write of L bytes legitimately needs (as in run)"""
+    fsc = FSC[min(desc["fsci"], 8)]
+    mlc = max(1, min(desc["mlc"], 255))
+    per_cmd = -(-(mlc + 7) // max(1, fsc - 3)) + desc.get("wtx", 0) + 4
+    return (L // mlc + 4) * per_cmd > budget // 2
+
+
+def _t4_start(desc, old, old_seed):
+    """built tag, activated, tag.ndef read -> (b, clf, ndef)"""
+    b = tc.build(desc, old, old_seed)
+    try:
+        clf, tag = tc.activate(b)
+    except Exception as e:
+        raise unexpected(e, "activation-raises")
+    if tag is None:
+        raise Violation("activation-failed", repr(desc))
+    try:
+        ndef = tag.ndef
+    except Exception as e:
+        raise unexpected(e, "ndef-read-raises")
+    if ndef is None:
+        raise Violation("ndef-not-found", "%r" % (desc,))
+    return b, clf, ndef
+
+
+def _t4_fresh(b, fault=None):
+    """fresh activation of the tag, then tag.ndef with an optional fault
+    (k, kind) at the k-th block exchange that follows the activation
+    -> (ndef or None, device, number of exchanges of tag.ndef)"""
+    try:
+        clf2, tag2 = tc.activate(b)
+        if tag2 is None:
+            raise Violation("activation-failed", repr(b.desc))
+        dev = clf2.device
+        base = dev.exchanges
+        if fault is not None:
+            dev.script = {base + 1 + fault[0]: T4FAULTS[fault[1]]}
+        ndef2 = tag2.ndef
+        dev.script = {}
+    except tagdev.BudgetExceeded:
+        raise Violation("unbounded-commands", "fresh read: %r" % (b.desc,))
+    except Violation:
+        raise
+    except Exception as e:
+        raise unexpected(e, "fresh-read-raises")
+    return ndef2, dev, dev.exchanges - base
+
+
+def _t4_hit(ctx, dev, since):
+    """label what kind of block the injected fault hit -> True when hit"""
+    prev = None
+    for idx, cmd, rsp, phase in dev.xlog:
+        if idx > since and isinstance(rsp, str) and rsp.startswith("ERR:"):
+            pcb = cmd[0] if cmd else 0
+            if pcb & 0xE2 == 0x02:
+                cont = prev is not None and prev[0][0] & 0xF2 == 0x12 \
+                    and isinstance(prev[1], bytes)
+                what = "i-block" + ("-chained" if pcb & 0x10 else "") + \
+                    ("-continuation" if cont else "")
+            elif pcb & 0xE6 == 0xA2:
+                what = "r-nak" if pcb & 0x10 else "r-ack"
+            elif pcb & 0xC7 == 0xC2:
+                what = "s-block"
+            else:
+                what = "other"
+            ctx.label("hit:%s:%s" % (what, "reader-block-lost"
+                                     if phase == "cmd" else "card-block-lost"))
+            return True
+        if cmd:
+            prev = (cmd, rsp)
+    return False
+
+
+def run_t4fault(case, ctx):
+    """Oracle: C01's round trip, unchanged.  where = "write": the assignment
+    meets one lost / corrupted block at its k-th block exchange (k modulo the
+    number of exchanges of the same assignment without fault); when it
+    RETURNED a fresh, fault-free activation must read exactly the assigned
+    octets (length too) and the reference reader must agree.  where =
+    "read": the assignment is fault-free, the fresh activation's tag.ndef
+    meets the fault; when it delivers an NDEF object that must carry exactly
+    the assigned octets.  An assignment that raises TagCommandError / a
+    tag.ndef that is None under the fault is labelled, not judged."""
+    desc = case["tag"]
+    ctx.label(tc.classify(desc))
+    ctx.set_class("t4fault/" + input_class(desc, -1, 0))
+    where, kind = case["where"], case["kind"]
+    b, clf, ndef = _t4_start(desc, case["old"], case["old_seed"])
+    cap = ndef.capacity
+    if cap > b.cap:
+        raise Violation("capacity-overreported",
+                        "reported %d, layout holds %d: %r" % (cap, b.cap, desc))
+    if not ndef.is_writeable:
+        raise Violation("not-writeable", repr(desc))
+    L = min(tc.resolve_len(case["new"], cap), cap)
+    data = tc.message(L, case["new_seed"])
+    dev = clf.device
+    if _t4_write_cost(desc, L, dev.budget):
+        ctx.label("skipped:write-longer-than-command-budget")
+        return
+    ctx.label("fault-in-" + where)
+    hit = False
+    if where == "write":
+        # rehearsal on a tag of its own: number of exchanges
+        b0, clf0, nd0 = _t4_start(desc, case["old"], case["old_seed"])
+        e0 = clf0.device.exchanges
+        try:
+            nd0.octets = data
+        except Exception as e:
+            raise unexpected(e, "write-raises",
+                             detail="L=%d cap=%d %r" % (L, cap, desc))
+        n = clf0.device.exchanges - e0
+        k = case["k"] % max(n, 1)
+        base = dev.exchanges
+        dev.script = {base + 1 + k: T4FAULTS[kind]}
+    try:
+        ndef.octets = data
+    except tagdev.BudgetExceeded:
+        raise Violation("unbounded-commands", "writing %d bytes took more "
+                        "than %d commands: %r" % (L, dev.budget, desc))
+    except nfc.tag.TagCommandError as e:
+        if where != "write":
+            raise unexpected(e, "write-raises",
+                             detail="L=%d cap=%d %r" % (L, cap, desc))
+        _t4_hit(ctx, dev, base)
+        ctx.label("assignment-raised-under-fault")
+        ctx.note({"L": L, "exchanges": n, "k": k, "kind": kind,
+                  "error": str(e)})
+        return
+    except Exception as e:
+        raise unexpected(e, "write-raises",
+                         detail="L=%d cap=%d %r" % (L, cap, desc))
+    finally:
+        dev.script = {}
+    if where == "write":
+        hit = _t4_hit(ctx, dev, base)
+        ndef2, dev2, n2 = _t4_fresh(b)
+    else:
+        nd1, dev1, n = _t4_fresh(b)              # rehearsal of the read
+        if nd1 is None:
+            raise Violation("fresh-read-none", "after writing %d bytes: %r"
+                            % (L, desc))
+        k = case["k"] % max(n, 1)
+        ndef2, dev2, n2 = _t4_fresh(b, (k, kind))
+        hit = _t4_hit(ctx, dev2, 0)
+        if ndef2 is None:
+            if not hit:
+                raise Violation("fresh-read-none", "after writing %d bytes: "
+                                "%r" % (L, desc))
+            ctx.label("fresh-read-none-under-fault")
+            ctx.note({"L": L, "exchanges": n, "k": k, "kind": kind})
+            return
+    if ndef2 is None:
+        raise Violation("fresh-read-none", "after writing %d bytes with a "
+                        "fault (%s) at block exchange %d of %d: %r"
+                        % (L, kind, k, n, desc))
+    got = ndef2.octets
+    if got != data or ndef2.length != L:
+        raise Violation("roundtrip-mismatch", "wrote %d bytes, fresh reader "
+                        "got %d (first diff at %s); one fault (%s) at block "
+                        "exchange %d of %d of the %s: %r"
+                        % (L, len(got), _firstdiff(got, data), kind, k, n,
+                           where, desc))
+    ref = b.ref_read()
+    if ref != data:
+        raise Violation("reference-reader-disagrees",
+                        "wrote %d bytes, reference reads %s; one fault (%s) "
+                        "at block exchange %d of %d of the %s: %r"
+                        % (L, _len(ref), kind, k, n, where, desc))
+    ctx.label("survived" if hit else "fault-not-hit")
+    if hit and L > 0:
+        ctx.nontrivial()
+    ctx.note({"L": L, "exchanges": n, "k": k, "kind": kind, "hit": hit})
+
+
+def t4fault_desc():
+    def fix(d):
+        d = dict(d, fwi=d["fwi"] % 12, fsize=min(d["fsize"], 1500))
+        if d["ver"] == 0x30:
+            d["fsize"] = max(d["fsize"], 6)
+        return d
+    return tc.t4t_desc().map(fix)
+
+
+def t4fault_strategy(tier):
+    # command / response sizes that make the reader (UPDATE BINARY) and the
+    # card (READ BINARY answer) chain over several blocks
+    chaining = t4fault_desc().map(lambda d: dict(
+        d, mlc=(255, 253, 128, 300)[d["mlc"] % 4],
+        mle=(255, 256, 128, 300)[d["mle"] % 4],
+        fsci=d["fsci"] % 7, chunk=d["chunk"] and min(d["chunk"], 61)))
+    return st.fixed_dictionaries({
+        "tag": st.one_of(t4fault_desc(), chaining),
+        "old": tc.len_spec(False), "old_seed": st.integers(0, 255),
+        "new": st.one_of(tc.len_spec(False),
+                         st.tuples(st.just("abs"), st.integers(200, 1500))),
+        "new_seed": st.integers(0, 255),
+        "where": st.sampled_from(["write", "write", "read"]),
+        "k": st.one_of(st.integers(0, 12), st.integers(0, 2000)),
+        "kind": st.sampled_from(["LC", "LR", "CR"])})
+
+
+T4FIXED = [
+    ({"kind": "t4t", "tech": "A", "ver": 0x20, "mle": 240, "mlc": 255,
+      "fsize": 1024, "phys_extra": 8, "fsci": 5, "fwi": 4, "chunk": 29,
+      "wtx": 0, "max_send": 290, "max_recv": 290, "filler": 0}, 600),
+    ({"kind": "t4t", "tech": "B", "ver": 0x20, "mle": 59, "mlc": 52,
+      "fsize": 300, "phys_extra": 8, "fsci": 2, "fwi": 8, "chunk": 11,
+      "wtx": 0, "max_send": 290, "max_recv": 290, "filler": 0xFF}, 130),
+    ({"kind": "t4t", "tech": "A", "ver": 0x10, "mle": 40, "mlc": 30,
+      "fsize": 120, "phys_extra": 0, "fsci": 0, "fwi": 10, "chunk": 5,
+      "wtx": 0, "max_send": 290, "max_recv": 290, "filler": 0}, 70),
+    ({"kind": "t4t", "tech": "B", "ver": 0x30, "mle": 255, "mlc": 255,
+      "fsize": 700, "phys_extra": 8, "fsci": 8, "fwi": 2, "chunk": 100,
+      "wtx": 0, "max_send": 290, "max_recv": 290, "filler": 0}, 520),
+    ({"kind": "t4t", "tech": "A", "ver": 0x20, "mle": 128, "mlc": 128,
+      "fsize": 400, "phys_extra": 8, "fsci": 4, "fwi": 11, "chunk": None,
+      "wtx": 1, "max_send": 64, "max_recv": 64, "filler": 0}, 300),
+]
+
+
+def enum_t4fault(tier, seed):
+    fixed = T4FIXED if tier == "thorough" else T4FIXED[:3]
+    for desc, L in fixed:
+        # exchange counts of the fault-free assignment and fresh read
+        b, clf, ndef = _t4_start(desc, ["abs", 10], 1)
+        e0 = clf.device.exchanges
+        ndef.octets = tc.message(L, 7)
+        n_w = clf.device.exchanges - e0
+        n_r = _t4_fresh(b)[2]
+        for where, n in (("write", n_w), ("read", n_r)):
+            for k in range(n):
+                for kind in ("LC", "LR", "CR"):
+                    yield {"tag": desc, "old": ["abs", 10], "old_seed": 1,
+                           "new": ["abs", L], "new_seed": 7, "where": where,
+                           "k": k, "kind": kind}
+
+
 # bounded exhaustive: all lengths for a few small layouts ----------------------
 SMALL = [
     {"kind": "t2t", "size": 6, "extra": 0, "ctrl": [], "nulls": 0,
@@ -438,6 +694,27 @@ LEGS = [
              "returned was verified by a fresh activation after at least "
              "one earlier assignment attempt or format on the same tag "
              "object; distinct by case hash."),
+    Leg("t4t-fault", run=run_t4fault, gen=t4fault_strategy, quick=2400,
+        thorough=40000, shards_quick=8, shards_thorough=16, nt_floor=0.2,
+        rule="Type 4 configurations (4A/4B, mapping 1.0-3.0, FSCI 0-8, FWI "
+             "0-11, MLe/MLc, card chunk size, S(WTX), device frame limits; "
+             "half of them with MLc/MLe >= 128 and FSC <= 96 so that commands "
+             "and responses chain over several blocks) x old message x new "
+             "length x ONE fault {reader block lost, card block lost, card "
+             "block corrupted} at the k-th block exchange (k modulo the "
+             "fault-free exchange count) of the assignment (2 of 3) or of "
+             "the fresh activation's tag.ndef (1 of 3); non-trivial = the "
+             "fault was hit, the operation survived it (the assignment "
+             "returned / tag.ndef delivered an NDEF object), L>0, and the "
+             "round trip was verified; distinct by case hash."),
+    Leg("t4t-fault-enum", run=run_t4fault, enum=enum_t4fault,
+        exhaustive=True, shards_quick=4, shards_thorough=16,
+        rule="fixed Type 4 configurations (3 quick, 5 thorough: FSC 16..256, "
+             "MLc 30..255, chained commands and chained responses, 4A/4B, "
+             "mapping 1.0/2.0/3.0) with one message each x EVERY block "
+             "exchange position of the assignment and of the fresh read x "
+             "{reader block lost, card block lost, card block corrupted}; "
+             "oracle and non-trivial rule as t4t-fault."),
     Leg("lengths", run=run, enum=enum_lengths, exhaustive=True,
         shards_quick=4, shards_thorough=16,
         rule="every message length 0..capacity+1 on fixed small layouts of "
